@@ -1,6 +1,7 @@
 /- Helper lemmas for C16, part 5: what the specification's writer writes is read back exactly. -/
 import Chrono.Proofs.TzRoundL
 import Chrono.Proofs.TzTruncL
+import Chrono.Proofs.TzSamples
 
 namespace Chrono.Proofs.Tz
 open Chrono Chrono.M.Tz Chrono.Spec.Tz Chrono.Extracted.TzP
@@ -321,7 +322,9 @@ theorem take_takeWhile_len (p : Nat → Bool) (l : List Nat) :
 designation index points into the table, a NUL follows, and the designation is empty or legal -/
 def TyRecOk (names : List Nat) (t : TyRec) : Prop :=
   I32r t.off ∧ t.off ≠ I32_MIN ∧ t.abbr < names.length ∧ 0 ∈ names.drop t.abbr
-    ∧ ∀ n, nameAt names t.abbr = some n → NameOk n
+    ∧ (match nameAt names t.abbr with
+        | some n => NameOk n
+        | none => True)
 
 theorem parseType_enc (names : List Nat) (t : TyRec) (hn : names.length < 4294967296)
     (h : TyRecOk names t) :
@@ -375,7 +378,7 @@ theorem parseType_enc (names : List Nat) (t : TyRec) (hn : names.length < 429496
       rw [if_neg h2]
     | false =>
       simp only [hemp, Bool.not_false, if_true, Bool.false_eq_true, if_false] at h5 ⊢
-      exact ltt_new_ok _ _ _ h2 (h5 _ rfl)
+      exact ltt_new_ok _ _ _ h2 h5
 
 theorem parseTypes_enc (names : List Nat) (l : List TyRec) (hn : names.length < 4294967296)
     (h : ∀ t ∈ l, TyRecOk names t) :
@@ -635,47 +638,105 @@ theorem parseRest_enc (v : Version) (ts : Nat) (b : Block) (fo : Option (List Na
   rw [hval]
   rfl
 
-theorem tzif_roundtrip_v1' (f : TzFile) (hver : f.version = .V1) (hs : BlockShape f.v1)
-    (hv : BlockVals .V1 4 f.v1) (hval : validate (absBlock f.v1 none) = .ok ()) :
-    parse (encodeTzif f) = .ok (absBlock f.v1 none) := by
+theorem parseBlocks_enc_v1 (f : TzFile) (hver : f.version = .V1) (hs : BlockShape f.v1) :
+    parseBlocks (encodeTzif f) = .ok (stateOf .V1 4 f.v1, none) := by
   have e : encodeTzif f = encHeader .V1 f.v1 ++ (encBody (if true then 4 else 8) f.v1 ++ []) := by
     simp [encodeTzif, hver]
-  have hb : parseBlocks (encodeTzif f) = .ok (stateOf .V1 4 f.v1, none) := by
-    unfold parseBlocks
-    rw [e, state_new_enc .V1 f.v1 [] true hs]
-    simp [stateOf, hdrOf]
-  rw [parse_of_blocks hb]
-  exact parseRest_enc .V1 4 f.v1 none none hs hv (Or.inl rfl) rfl hval
+  unfold parseBlocks
+  rw [e, state_new_enc .V1 f.v1 [] true hs]
+  simp [stateOf, hdrOf]
 
-theorem tzif_roundtrip_v2' (f : TzFile) (hver : f.version ≠ .V1) (hs1 : BlockShape f.v1)
-    (hs2 : BlockShape f.v2) (hv : BlockVals f.version 8 f.v2) (rule : Option Rule)
-    (hfoot : FooterOk f.version f.footer rule) (hval : validate (absBlock f.v2 rule) = .ok ()) :
-    parse (encodeTzif f) = .ok (absBlock f.v2 rule) := by
+theorem parseBlocks_enc_v2 (f : TzFile) (hver : f.version ≠ .V1) (hs1 : BlockShape f.v1)
+    (hs2 : BlockShape f.v2) :
+    parseBlocks (encodeTzif f) = .ok (stateOf f.version 8 f.v2, some (10 :: (f.footer ++ [10]))) := by
   have e : encodeTzif f = encHeader f.version f.v1 ++ (encBody (if true then 4 else 8) f.v1 ++
       (encHeader f.version f.v2 ++ (encBody (if false then 4 else 8) f.v2 ++ (10 :: (f.footer ++ [10]))))) := by
     cases hv' : f.version with
     | V1 => exact absurd hv' hver
     | V2 => simp [encodeTzif, hv', List.append_assoc]
     | V3 => simp [encodeTzif, hv', List.append_assoc]
-  have hb : parseBlocks (encodeTzif f)
-      = .ok (stateOf f.version 8 f.v2, some (10 :: (f.footer ++ [10]))) := by
-    unfold parseBlocks
-    rw [e, state_new_enc f.version f.v1 _ true hs1]
-    simp only [P.bind_ok]
-    simp only [stateOf, hdrOf]
-    cases hv' : f.version with
-    | V1 => exact absurd hv' hver
-    | V2 =>
-      rw [state_new_enc _ f.v2 _ false hs2]
-      rfl
-    | V3 =>
-      rw [state_new_enc _ f.v2 _ false hs2]
-      rfl
-  rw [parse_of_blocks hb]
+  unfold parseBlocks
+  rw [e, state_new_enc f.version f.v1 _ true hs1]
+  simp only [P.bind_ok]
+  simp only [stateOf, hdrOf]
+  cases hv' : f.version with
+  | V1 => exact absurd hv' hver
+  | V2 =>
+    rw [state_new_enc _ f.v2 _ false hs2]
+    rfl
+  | V3 =>
+    rw [state_new_enc _ f.v2 _ false hs2]
+    rfl
+
+theorem tzif_roundtrip_v1' (f : TzFile) (hver : f.version = .V1) (hs : BlockShape f.v1)
+    (hv : BlockVals .V1 4 f.v1) (hval : validate (absBlock f.v1 none) = .ok ()) :
+    parse (encodeTzif f) = .ok (absBlock f.v1 none) := by
+  rw [parse_of_blocks (parseBlocks_enc_v1 f hver hs)]
+  exact parseRest_enc .V1 4 f.v1 none none hs hv (Or.inl rfl) rfl hval
+
+theorem tzif_roundtrip_v2' (f : TzFile) (hver : f.version ≠ .V1) (hs1 : BlockShape f.v1)
+    (hs2 : BlockShape f.v2) (hv : BlockVals f.version 8 f.v2) (rule : Option Rule)
+    (hfoot : FooterOk f.version f.footer rule) (hval : validate (absBlock f.v2 rule) = .ok ()) :
+    parse (encodeTzif f) = .ok (absBlock f.v2 rule) := by
+  rw [parse_of_blocks (parseBlocks_enc_v2 f hver hs1 hs2)]
   refine parseRest_enc f.version 8 f.v2 _ rule hs2 hv (Or.inr rfl) ?_ hval
   show parseFooter _ _ = _
   rcases hfoot with ⟨h1, h2⟩ | ⟨r, h1, h2, h3⟩
   · rw [h1, h2]; exact parseFooter_empty _
   · rw [h1, h2]; exact parseFooter_rule _ r h3
+
+theorem footerOf_enc_v1 (f : TzFile) (hver : f.version = .V1) (hs : BlockShape f.v1) :
+    footerOf (encodeTzif f) = [] := by
+  unfold footerOf; rw [parseBlocks_enc_v1 f hver hs]
+
+theorem footerOf_enc_v2 (f : TzFile) (hver : f.version ≠ .V1) (hs1 : BlockShape f.v1)
+    (hs2 : BlockShape f.v2) : footerOf (encodeTzif f) = 10 :: (f.footer ++ [10]) := by
+  unfold footerOf; rw [parseBlocks_enc_v2 f hver hs1 hs2]
+
+/-! ### `validate` on zones without a rule-versus-transition obligation -/
+theorem checkTransitions_of (n : Nat) (l : List Transition) (h1 : SortedStrict l)
+    (h2 : ∀ t ∈ l, t.idx < n) : checkTransitions n l = true := by
+  induction l with
+  | nil => rfl
+  | cons t rest ih =>
+    have ht : t.idx < n := h2 t (by simp)
+    cases rest with
+    | nil => simp [checkTransitions, ht]
+    | cons u r2 =>
+      obtain ⟨hlt, hs⟩ := h1
+      have := ih hs (fun x hx => h2 x (List.mem_cons_of_mem _ hx))
+      simp only [checkTransitions, Bool.and_eq_true, decide_eq_true_eq] at this ⊢
+      exact ⟨⟨ht, hlt⟩, this⟩
+
+/-- without a rule, or without transitions, `validate` only asks for a type, sorted in-range
+transitions and the leap-second table constraints -/
+theorem validate_ok_of (z : Zone) (h0 : z.types ≠ []) (h1 : SortedStrict z.transitions)
+    (h2 : ∀ t ∈ z.transitions, t.idx < z.types.length) (h3 : checkLeaps z.leaps = true)
+    (h4 : z.rule = none ∨ z.transitions = []) : validate z = .ok () := by
+  unfold validate
+  have hl : ¬ z.types.length = 0 := by
+    intro e; exact h0 (List.eq_nil_of_length_eq_zero e)
+  rw [if_neg hl, if_neg (by rw [checkTransitions_of _ _ h1 h2]; simp), if_neg (by rw [h3]; simp)]
+  rcases h4 with h | h
+  · rw [h]
+  · rw [h]
+    cases z.rule <;> rfl
+
+/-! ### the hypotheses are satisfiable: `sampleV2` -/
+theorem sampleV2_shape1 : BlockShape sampleV2.v1 :=
+  ⟨by decide, by decide, by decide, by decide, by decide, by decide, by decide, by decide⟩
+theorem sampleV2_shape2 : BlockShape sampleV2.v2 :=
+  ⟨by decide, by decide, by decide, by decide, by decide, by decide, by decide, by decide⟩
+
+instance (x : Int) : Decidable (I32r x) := by unfold I32r; infer_instance
+instance (x : Int) : Decidable (I64r x) := by unfold I64r; infer_instance
+instance (v : Version) (ts : Nat) (t : Int) : Decidable (TimeFits v ts t) := by
+  unfold TimeFits; infer_instance
+instance (names : List Nat) (t : TyRec) : Decidable (TyRecOk names t) := by
+  unfold TyRecOk
+  cases nameAt names t.abbr <;> infer_instance
+
+theorem sampleV2_vals : BlockVals sampleV2.version 8 sampleV2.v2 :=
+  ⟨by decide +kernel, by decide +kernel, by decide +kernel, by decide +kernel⟩
 
 end Chrono.Proofs.Tz
